@@ -23,10 +23,10 @@ def run_c15(run, tier, wd, binary, replay):
     if replay:
         scs = [json.load(open(replay))["replay"]["scenario"]]
     else:
-        scs = [dict(id="c%d" % i, opts=o) for i, o in enumerate(cl.all_sequences(2, cl.KEYSETS[:4]))]
+        scs = [dict(id="c%d" % i, opts=o) for i, o in enumerate(cl.all_sequences(2, cl.KEYSETS[:3]))]
         if tier == "thorough":
-            scs += [dict(id="d%d" % i, opts=o) for i, o in enumerate(cl.all_sequences(3, cl.KEYSETS[:3]))]
-        scs += [dict(id="r%d" % i, opts=cl.rand_sequence(rng, 6)) for i in range(400 if tier == "quick" else 6000)]
+            scs += [dict(id="d%d" % i, opts=o) for i, o in enumerate(cl.all_sequences(3, cl.KEYSETS[:2], vals=(1,)))]
+        scs += [dict(id="r%d" % i, opts=cl.rand_sequence(rng, 6)) for i in range(600 if tier == "quick" else 8000)]
     th = threading.Thread(target=mc)
     if not replay:
         th.start()
